@@ -152,7 +152,7 @@ def share_label_names(x):  # type: ignore
 def main() -> None:
     run = Run("C05", "translation_validation")
     run.forbid()
-    run.require_vo(["Ssb/EquivSound.v", "Lang/Inline.v", "Lang/InlineProofs.v", "Lang/MacroStatic.v", "Lang/InlineFree.v", "Lang/SrcSem.v", "Comp/MacroBuild.v", "Comp/MacroBuildProofs.v", "Comp/RenameSem.v", "Comp/ExpandSame.v", "Comp/ReturnSem.v"])
+    run.require_vo(["Ssb/EquivSound.v", "Lang/Inline.v", "Lang/InlineProofs.v", "Lang/MacroStatic.v", "Lang/InlineFree.v", "Lang/SrcSem.v", "Comp/MacroBuild.v", "Comp/MacroBuildProofs.v", "Comp/RenameSem.v", "Comp/ExpandSame.v", "Comp/ReturnSem.v", "Comp/DefsOnce.v"])
     run.props("Props/C05.v")
     run.props("Props/C01.v")
     q = run.tier == "quick"
